@@ -7,6 +7,7 @@ package main
 
 import (
 	"bytes"
+	"context"
 	"encoding/json"
 	"fmt"
 	"os"
@@ -404,7 +405,9 @@ func (w *world) build(crashAt int, fserr int, torn bool, match ...string) buildR
 	oplog := filepath.Join(w.dir, "oplog.txt")
 	os.Remove(oplog)
 	os.Remove(filepath.Join(w.dir, "prog.out"))
-	cmd := exec.Command(llgoBin, args...)
+	bctx, bcancel := context.WithTimeout(context.Background(), 15*time.Minute)
+	defer bcancel()
+	cmd := exec.CommandContext(bctx, llgoBin, args...)
 	cmd.Dir = w.dir
 	cmd.Env = []string{"PATH=" + go123 + ":/usr/bin:/bin", "HOME=" + tmpRoot, "LLGO_ROOT=" + repoDir, "LLVM_CONFIG=" + shimDir + "/bin/llvm-config",
 		"GOTOOLCHAIN=local", "GOFLAGS=-mod=mod", "GOPROXY=off", "GOWORK=off", "XDG_CACHE_HOME=" + w.cache, "VERIF_OPLOG=" + oplog,
@@ -436,7 +439,9 @@ func (w *world) build(crashAt int, fserr int, torn bool, match ...string) buildR
 	if err != nil {
 		return r
 	}
-	run := exec.Command(filepath.Join(w.dir, "prog.out"))
+	rctx, rcancel := context.WithTimeout(context.Background(), 60*time.Second)
+	defer rcancel()
+	run := exec.CommandContext(rctx, filepath.Join(w.dir, "prog.out"))
 	run.Dir = w.dir
 	var po bytes.Buffer
 	run.Stdout, run.Stderr = &po, &po
